@@ -402,6 +402,63 @@ def signal_scenario(rng, T, roots, when, sig, tag='sg', watch=False):
         vf.sh(['rm', '-rf', d])
 
 
+# ---------------------------------------------------------------------------------------------- change mid-build, then signal (C10)
+
+def watch_signal_midbuild(rng, tag='wm'):
+    """`zinoma --watch`: the input of a build (or of its producer) changes while the build script is in progress, possibly
+    several times; then SIGINT/SIGTERM arrives while that script (and whatever zinoma started since) is still running.
+    zinoma must exit promptly and every shell it spawned must be gone."""
+    chain = rng.random() < 0.5
+    T = {'t': {'kind': 'build', 'deps': ['p'] if chain else []}}
+    if chain:
+        T['p'] = {'kind': 'build', 'deps': []}
+    d = vf.scratch_dir(tag)
+    spec = {}
+    for t, s_ in T.items():
+        os.makedirs(os.path.join(d, 'in', t), exist_ok=True)
+        with open(os.path.join(d, 'in', t, 'src.txt'), 'w') as f:
+            f.write('v0 of %s\n' % t)
+        spec[t] = {'kind': 'build', 'deps': s_['deps'], 'gated': True, 'input': ['paths: [in/%s]' % t]}
+    proj = blackbox.Project(d, spec)
+    run = blackbox.Run(proj, ['--watch', 't'])
+    V = {}
+    sig = rng.choice([signal.SIGINT, signal.SIGTERM])
+    nchanges = rng.choice([1, 1, 2, 3])
+    try:
+        if chain:
+            run.wait_trace(lambda tr: any(k == 'start' and t == 'p' for k, t, _ in tr), 8)
+            run.release('p', 0)
+        got = run.wait_trace(lambda tr: any(k == 'start' and t == 't' for k, t, _ in tr), 8)
+        if got:
+            for i in range(nchanges):
+                which = rng.choice(['t', 'p']) if chain else 't'
+                with open(os.path.join(d, 'in', which, 'src.txt'), 'w') as f:
+                    f.write('v%d of %s\n' % (i + 1, which))
+                time.sleep(rng.choice([0.05, 0.15, 0.3]))
+        t0 = time.time()
+        run.signal(sig)
+        if not run.wait_exit(EXIT_BOUND_S):
+            V.setdefault('C10', []).append('%s while a build was in progress whose input had just changed (%d change(s)): no exit within '
+                                           '%.0fs' % (signal.Signals(sig).name, nchanges, EXIT_BOUND_S))
+        lat = time.time() - t0
+        if run.poll() is not None:
+            left = run.leftover()
+            t1 = time.time()
+            while left and time.time() - t1 < 2:
+                time.sleep(0.02)
+                left = run.leftover()
+            if left:
+                V.setdefault('C10', []).append('watch mode, input changed %d time(s) while the build script ran, then %s: zinoma exited '
+                                               'but these script shells are still there: %s' % (nchanges, signal.Signals(sig).name, left))
+        obs = {'targets': T, 'roots': ['t'], 'when': 'mid-build after %d change(s)' % nchanges, 'signal': signal.Signals(sig).name,
+               'latency_s': lat, 'exit_code': run.exit_code, 'trace': run.trace(), 'watch': True}
+        return obs, V
+    finally:
+        run.kill()
+        proj.close()
+        vf.sh(['rm', '-rf', d])
+
+
 # ---------------------------------------------------------------------------------------------- rendezvous (C17)
 
 def rendezvous(rng, k, tag='rv', with_noise=True):
